@@ -72,6 +72,9 @@ type c08Case struct {
 	// If LoadFilter accepts the policy all the same, the group lists the syscall by name: every call of it gets the
 	// group's action, whatever the arguments.
 	Both bool `json:"both,omitempty"`
+	// OpCase != 0: the operation names of the policy handed to LoadFilter are written in another letter case. Refusing
+	// them is fine; if the load succeeds they must mean the documented operations.
+	OpCase uint64 `json:"op_case,omitempty"`
 }
 
 func archOfGOARCH(g string) string {
@@ -203,6 +206,9 @@ func drawC08(t *rapid.T) c08Case {
 			}
 		}
 	}
+	if !c.Both && rapid.IntRange(0, 9).Draw(t, "opCase") == 0 {
+		c.OpCase = rapid.Uint64Range(1, 1<<62).Draw(t, "opCaseSeed")
+	}
 	c.Prior = rapid.IntRange(0, 4).Draw(t, "prior") == 0
 	c.PriorSame = c.Prior && rapid.Bool().Draw(t, "priorSame")
 	return c
@@ -259,8 +265,12 @@ func checkC08(raw json.RawMessage) (ev.Result, error) {
 	if p.Arch != archName {
 		return ev.Result{}, ev.Inconclusivef("policy architecture %s does not match child ABI %s", p.Arch, c.GOARCH)
 	}
-	cp, cerr, pan := compilePolicy(p)
-	if c.Both && pan == nil && cerr != nil {
+	toLoad := p
+	if c.OpCase != 0 {
+		toLoad = mangleOps(p, c.OpCase)
+	}
+	cp, cerr, pan := compilePolicy(toLoad)
+	if (c.Both || c.OpCase != 0) && pan == nil && cerr != nil {
 		// refused, as it should be: nothing is installed, nothing to observe
 		return ev.Result{Classes: []string{"defective-policy-refused(no-claim)"}}, nil
 	}
@@ -284,13 +294,13 @@ func checkC08(raw json.RawMessage) (ev.Result, error) {
 		prior := spec.Policy{Arch: archName, Default: actAllow, Groups: []spec.Group{{Action: actAllow, Names: []string{"getpid"}}}}
 		fs := &kjob.FilterSpec{Policy: prior, NNP: true, Flag: 0, HostArch: true}
 		if c.PriorSame {
-			fs = &kjob.FilterSpec{Policy: *p, NNP: c.NNP, Flag: c.Flag, HostArch: true}
+			fs = &kjob.FilterSpec{Policy: *toLoad, NNP: c.NNP, Flag: c.Flag, HostArch: true}
 		}
 		steps = append(steps, kjob.Step{Op: "load", Thread: 1, Filter: fs})
 		o = 1
 	}
 	steps = append(steps,
-		kjob.Step{Op: "load", Thread: 0, Filter: &kjob.FilterSpec{Policy: *p, NNP: c.NNP, Flag: c.Flag, HostArch: true}},
+		kjob.Step{Op: "load", Thread: 0, Filter: &kjob.FilterSpec{Policy: *toLoad, NNP: c.NNP, Flag: c.Flag, HostArch: true}},
 		kjob.Step{Op: "allstatus"},
 		kjob.Step{Op: "probe", Thread: 0, Probes: probes},
 		kjob.Step{Op: "probe", Thread: 1, Probes: probes},
@@ -340,6 +350,9 @@ func checkC08(raw json.RawMessage) (ev.Result, error) {
 	res := ev.Result{Classes: []string{"abi:" + c.GOARCH, fmt.Sprintf("flag:%d", c.Flag), fmt.Sprintf("nnp:%v", c.NNP)}}
 	if ld.Panic != "" {
 		return res, fmt.Errorf("LoadFilter panicked: %s", ld.Panic)
+	}
+	if c.OpCase != 0 {
+		res.Classes = append(res.Classes, "operation-names-in-another-letter-case-accepted")
 	}
 	priorSynced := c.Prior && c.PriorSame && tsync // the earlier load was itself synchronised to every thread
 	if c.PriorSame {
